@@ -7,6 +7,8 @@
 -/
 import BV.Base
 import BV.Spec.OneD
+import BV.Spec.RS
+import BV.Spec.BitSeq
 namespace BV.Oracle
 open BV
 
@@ -186,6 +188,137 @@ def oracleC08 (op : List String) (o : Obs) : Verdict :=
       else .pass
   | _ => .na
 
+/-! ### C17 Galois fields, polynomials, Reed–Solomon -/
+
+def intList (s : String) : List Int :=
+  if s == "-" || s == "" then [] else (s.splitOn ",").map (fun t => t.toInt?.getD 0)
+def natList (s : String) : List Nat := (intList s).map Int.toNat
+
+def oracleC17 (op : List String) (o : Obs) : Verdict :=
+  let field? : Option (Spec.RS.BinField × Nat) :=
+    match op with
+    | _ :: pp :: size :: base :: _ => some (⟨pp.toNat?.getD 0, size.toNat?.getD 0⟩, base.toNat?.getD 0)
+    | _ => none
+  match field? with
+  | none => .na
+  | some (f, base) =>
+  let n := f.size
+  match op with
+  | ["gf.tables", _, _, _] =>
+    if o.cls ≠ "ok" then .fail "gf-tables" o.cls else
+    let alog := natList (o.get "alog")
+    let log := natList (o.get "log")
+    if alog.length ≠ n ∨ log.length ≠ n then .fail "gf-tables" "table sizes" else
+    -- alog[i] = x^i ; log is a right inverse of alog on the non-zero elements
+    let okA := (List.range n).foldl (fun (acc : Bool × Nat) i => (acc.1 && alog.getD i 0 == acc.2, f.mulx acc.2)) (true, 1)
+    let alogA := alog.toArray
+    let okL := (List.range n).all (fun a => a == 0 || alogA.getD ((log.getD a 0) % (n - 1)) 0 == a)
+    if okA.1 && okL then .pass else .fail "gf-tables" "antilog table is not the powers of x / log is not its inverse"
+  | ["gf.mulrow", _, _, _, a] =>
+    if o.cls ≠ "ok" then .fail "gf-mul" o.cls else
+    let a := a.toNat?.getD 0
+    let v := natList (o.get "v")
+    if v.length == n && (List.range n).all (fun b => v.getD b 0 == f.mul a b) then .pass
+    else .fail "gf-mul" s!"Multiply({a}, b) differs from the field product for some b"
+  | ["gf.divrow", _, _, _, a] =>
+    if o.cls ≠ "ok" then .fail "gf-div" s!"Divide({a}, b) for non-zero b gave {o.cls}" else
+    let a := a.toNat?.getD 0
+    let v := intList (o.get "v")
+    if v.length == n && (List.range n).all (fun b => b == 0 ||
+        (let q := v.getD b (-1); q ≥ 0 && q.toNat < n && f.mul q.toNat b == a)) then .pass
+    else .fail "gf-div" s!"Divide({a}, b) * b differs from {a} for some non-zero b"
+  | ["gf.inv", _, _, _] =>
+    if o.cls ≠ "ok" then .fail "gf-inv" o.cls else
+    let v := natList (o.get "v")
+    if v.length == n && (List.range n).all (fun a => a == 0 || (v.getD a 0 < n && f.mul a (v.getD a 0) == 1)) then .pass
+    else .fail "gf-inv" "a * Invers(a) differs from 1 for some a"
+  | ["poly", _, _, _, "div", p, q] =>
+    let p := natList p
+    let q := natList q
+    if q.headD 0 == 0 then .na
+    else if o.cls ≠ "ok" then .fail "poly-div" o.cls else
+    let quo := natList (o.get "q")
+    let rem := natList (o.get "r")
+    let back := Spec.RS.polyAddRaw (f.polyMulRaw quo q) rem
+    if !Spec.RS.polyEq back p then .fail "poly-div" "dividend differs from quotient * divisor + remainder"
+    else if Spec.RS.polyDeg rem ≥ Spec.RS.polyDeg q ∧ Spec.RS.polyDeg rem ≥ 0 ∧ !(Spec.RS.polyDeg q == 0 ∧ Spec.RS.stripZeros rem == []) then
+      .fail "poly-div" "degree of the remainder is not below the degree of the divisor"
+    else .pass
+  | ["poly", _, _, _, "mul", p, q] =>
+    if o.cls ≠ "ok" then .fail "poly-mul" o.cls
+    else if Spec.RS.polyEq (natList (o.get "r")) (f.polyMulRaw (natList p) (natList q)) then .pass
+    else .fail "poly-mul" "product differs"
+  | ["poly", _, _, _, "add", p, q] =>
+    if o.cls ≠ "ok" then .fail "poly-add" o.cls
+    else if Spec.RS.polyEq (natList (o.get "r")) (Spec.RS.polyAddRaw (natList p) (natList q)) then .pass
+    else .fail "poly-add" "sum differs"
+  | ["rs", _, _, _, calls] =>
+    if o.cls ≠ "ok" then .fail "rs-encode" o.cls else
+    let cs := (calls.splitOn ";").map (fun c => match c.splitOn ":" with
+      | [k, d] => (k.toNat?.getD 0, natList d)
+      | _ => (0, []))
+    let rs := (o.get "r").splitOn ";"
+    if rs.length ≠ cs.length then .fail "rs-encode" "number of results" else
+    let bad := (List.zip cs rs).find? (fun ((k, d), r) =>
+      let e := natList r
+      !(e.length == k && f.valid base k (d ++ e)))
+    match bad with
+    | none => .pass
+    | some ((k, _), _) => .fail "rs-encode" s!"data ++ check symbols (k={k}) is not a codeword (non-zero syndrome or wrong length)"
+  | _ => .na
+
+/-! ### C18 BitList as a bit sequence -/
+
+/-- interpret a BitList script on the abstract bit sequence; `none` when an index is outside the sequence -/
+def bitSeqRun : List String → Array Bool → String → Option (Array Bool × String)
+  | [], bs, gets => some (bs, gets)
+  | t :: rest, bs, gets =>
+    let arg := (t.drop 1).toString
+    if t.startsWith "a" then bitSeqRun rest (bs.push (arg == "1")) gets
+    else if t.startsWith "A" then bitSeqRun rest (bs ++ (arg.toList.map (· == '1')).toArray) gets
+    else if t.startsWith "B" then bitSeqRun rest (bs ++ (Spec.BitSeq.lowBits (arg.toInt?.getD 0) 8).toArray) gets
+    else if t.startsWith "b" then
+      match arg.splitOn "," with
+      | [x, k] => bitSeqRun rest (bs ++ (Spec.BitSeq.lowBits (x.toInt?.getD 0) (k.toNat?.getD 0)).toArray) gets
+      | _ => none
+    else if t.startsWith "s" then
+      match arg.splitOn "," with
+      | [i, v] =>
+        let i := i.toNat?.getD bs.size
+        if i < bs.size then bitSeqRun rest (bs.setIfInBounds i (v == "1")) gets else none
+      | _ => none
+    else if t.startsWith "g" then
+      let i := arg.toNat?.getD bs.size
+      if i < bs.size then bitSeqRun rest bs (gets.push (if bs.getD i false then '1' else '0')) else none
+    else none
+
+/-- `Spec.BitSeq.pack` on an array (same definition, constant-time indexing) -/
+def packArr (bs : Array Bool) : List Nat :=
+  (List.range ((bs.size + 7) / 8)).map (fun i =>
+    (List.range 8).foldl (fun acc j => 2 * acc + (if bs.getD (8 * i + j) false then 1 else 0)) 0)
+
+def oracleC18 (op : List String) (o : Obs) : Verdict :=
+  match op with
+  | "bl" :: first :: script =>
+    let init : Option (Array Bool) :=
+      if first == "z" then some #[]
+      else if first.startsWith "n" then (first.drop 1).toString.toNat?.map (Array.replicate · false) else none
+    match init with
+    | none => .na
+    | some bs =>
+      match bitSeqRun script bs "" with
+      | none => .na     -- an index at or beyond the length: outside the property
+      | some (bs, gets) =>
+        if o.cls ≠ "ok" then .fail "bitlist-crash" o.cls else
+        let bytes := packArr bs
+        let hexOf := fun (l : List Nat) => toHexField (l.map UInt8.ofNat)
+        if o.nat "len" ≠ bs.size then .fail "bitlist-len" "Len() differs from the number of bits appended"
+        else if o.get "bytes" ≠ hexOf bytes then .fail "bitlist-bytes" "GetBytes() is not the packed sequence"
+        else if o.get "iter" ≠ hexOf bytes then .fail "bitlist-iter" "IterateBytes() is not the packed sequence"
+        else if o.get "gets" ≠ (if gets.isEmpty then "-" else gets) then .fail "bitlist-get" "GetBit differs from the sequence"
+        else .pass
+  | _ => .na
+
 /-! ### dispatcher -/
 
 def splitAt (sep : String) (l : List String) : List String × List String :=
@@ -202,6 +335,8 @@ def run (toks : List String) : String :=
       | "C06" => oracleC06 op o
       | "C07" => oracleC07 op o
       | "C08" => oracleC08 op o
+      | "C17" => oracleC17 op o
+      | "C18" => oracleC18 op o
       | _ => .na
     v.line
   | [] => "na"
